@@ -328,7 +328,7 @@ def constraint_views(d, X):
 
 
 # --------------------------------------------------------------------------- generator of usable objects
-def gen_objects(rng, count, max_n, kinds=KINDS, mf_prob=None, stats=None, max_tries=400):
+def gen_objects(rng, count, max_n, kinds=KINDS, mf_prob=None, stats=None, max_tries=400, after_query_prob=None):
     """Yield `count` dicts {kind, desc, rp, data} with 1 <= n <= max_n, kinds in rotation.
     Objects on which dense_data itself raises are yielded with data=None and 'error' set (the caller
     decides what that means).  `stats` (dict) collects the distribution of what was generated."""
@@ -343,6 +343,9 @@ def gen_objects(rng, count, max_n, kinds=KINDS, mf_prob=None, stats=None, max_tr
             desc = random_instance(rng)
             if mf_prob is not None:
                 desc["make_feasible"] = rng.choice(HIGH_COSTS) if rng.random() < mf_prob else None
+            if after_query_prob is not None and desc["make_feasible"] is not None:
+                # the object is queried (sizes, data, sufficient penalty, both QUBOs) before the heuristic changes it
+                desc["mf_mode"] = "after_query" if rng.random() < after_query_prob else "fresh"
             if kind == "seq":
                 est = desc["V"] * max(0, desc["L"] - 2) * len(desc["nodes"])
                 if est == 0 or est > 2 * max_n:
